@@ -49,7 +49,7 @@ PROPS = {
     "C07": dict(functions=[S + "hybrid_rush_larsen", S + "generalized_rush_larsen", S + "explicit_euler", S + "get_scheme",
                            U + "add_schemes", B + "scheme"] + SORTED, lemmas=[]),
     "C08": dict(functions=["gotranx.transformer.TreeToODE.ode", "gotranx.transformer._same_definition", M + "sort_assignments",
-                           X + "build_expression.expr2symbols", M + "check_components"]
+                           X + "build_expression.expr2symbols", M + "check_components", M + "ODE.__init__"]
                 + ["gotranx.ode_component.BaseComponent." + n for n in ("is_complete", "states_with_derivatives", "states_without_derivatives", "find_state")]
                 + ["gotranx.ode_component.Component._handle_assignments", "gotranx.atoms.Assignment.to_state_derivative",
                    "gotranx.atoms.Assignment.to_intermediate"], lemmas=L.C08L),
